@@ -37,6 +37,12 @@ CHECKS = {
     "C10": dict(engine="recipe", ref="4 C10", text="The scope strings the calibrator and the params generator compute for every operator of real models (converter-style names, one and two signatures) enter Recipe.tla as ScopePairs; TLC checks ScopesMatchAlike and SelectionAgrees over the stores reachable with ~45 regex patterns; then for every (model, regex, selector, config) the real calibrate() -> quantize() is run: never missing statistics, operators calibrated = operators quantised = operators the documented resolution selects on the quantization scope, per signature.",
                 note="Regex semantics are Python's re.search; scope strings read from the components' own _get_op_scope. Single-rule recipes (histories of length 1-2).",
                 tech="TLA+ model checking (TLC) of Recipe.tla (SelectionAgrees) + end-to-end spec->code replay"),
+    "C14": dict(engine="api", ref="4 C14", text="Api.tla models call histories on two Quantizers sharing caller-owned calibration results (value terms, with the set of recipes that wrote into them); TLC checks ArgsUntouched and OutputIsFunction over all interleavings of load/calibrate/quantize/validate up to the bound; every emitted transition is executed on real objects: after every call all caller-owned objects are compared with deep-equality snapshots, outcomes are compared with the prediction, quantize() bytes are compared with a fresh Quantizer given equal arguments; a sample is re-run in fresh processes under PYTHONHASHSEED 0/1/random.",
+                note="One 4-operator model (FC, TANH, RESHAPE, ADD), 3 recipes chosen so that statistics side effects matter, 2 datasets, <= 2 calibration results, histories to length 4 (quick) / 5 (thorough).",
+                tech="TLA+ model checking (TLC) of Api.tla + transition replay on real objects with snapshots and fresh-object/fresh-process references"),
+    "C16": dict(engine="serialize", ref="4 C16", text="Serialize.tla models the two-pass layout of _serialize_large_model (header of the final pass may shrink when a scalar field becomes default-valued); TLC checks Aligned/InBounds/Disjoint/PointsAtData; quantized models and synthetic layouts are serialised by both paths through the public quantize() (hook lowers the threshold) and the raw (offset,size,total) read with Model.GetRootAs are judged by TLC (ObservedSerialize.tla) together with byte-selection, field-equality and interpreter-equality observations.",
+                note="Needs hook AI_EDGE_QUANTIZER_VERIF_LARGE_MODEL_THRESHOLD. 3-4 buffers, sizes {none,0,1,15,16,17,33}, 32 header residues at design level; 224-640 synthetic layouts + random quantized models observed.",
+                tech="TLA+ model checking (TLC) of Serialize.tla + TLC evaluation of layout invariants on observed (offset,size) tables"),
     "C17": dict(engine="quantmath", ref="4 C17", text="QuantMath.tla is an exact-rational reference of the quantisation arithmetic written from the TFLite spec; TLC checks the laws of C17 on it for every grid vector and emits expected values which the library's results must match (zero point exactly, either neighbour on an exact tie; scale within 3e-7); integer results observed from the library (all codes under parameters exactly as the library produces them, ascending inputs, per-channel tensors) are judged by TLC (ObservedMath.tla).",
                 note="Grids: ranges a/8 x b/8 (a,b <= 16 quick / 48 thorough), one-sided, tiny; bits 4/8/16; both symmetries; all codes for 4/8 bit. numpy float arithmetic trusted in the float-vs-rational comparison.",
                 tech="TLA+ model checking (TLC) of an exact-rational reference + expected-value replay + TLC evaluation of integer laws on observed results"),
@@ -45,7 +51,7 @@ CHECKS = {
 NA = {
     "C07": "numeric closeness of chained LiteRT integer kernels to float kernels is not a property of any state the quantizer has; TLC has no model of those kernels and an empirical tolerance would either miss errors or raise false alarms (DESIGN 4 C07). Its discrete preconditions are decided under C03/C04/C05/C13.",
 }
-PLANNED = ["C04", "C05", "C06", "C13", "C14", "C15", "C16", "C18", "C19"]
+PLANNED = ["C04", "C05", "C06", "C13", "C15", "C18", "C19"]
 
 
 def main():
@@ -73,6 +79,8 @@ def main():
            "kind_free_text": "TLA+ spec of the recipe store and documented resolution; transition replay on RecipeManager"},
           {"name": "calib", "path": "/verif/spec/Calib.tla", "serves_properties": [p for p, c in CHECKS.items() if c["engine"] == "calib"],
            "kind_free_text": "TLA+ spec of calibrate() over resumed sessions (symbolic fold sequences); behaviour replay"},
+          {"name": "api", "path": "/verif/spec/Api.tla", "serves_properties": ["C14"], "kind_free_text": "TLA+ spec of call histories over caller-owned objects; transition replay"},
+          {"name": "serialize", "path": "/verif/spec/Serialize.tla", "serves_properties": ["C16"], "kind_free_text": "TLA+ spec of the two-pass external-buffer layout; ObservedSerialize.tla"},
           {"name": "quantmath", "path": "/verif/spec/QuantMath.tla", "serves_properties": [p for p, c in CHECKS.items() if c["engine"] == "quantmath"],
            "kind_free_text": "exact-rational TLA+ reference of the quantisation arithmetic; expected-value replay; ObservedMath.tla"},
       ],
